@@ -364,6 +364,27 @@ func (p *parser) parseFile() {
 					p.consumeSemicolonList()
 				}
 
+				// 初始化值的种类必须和声明的类型匹配
+				if globalObj.Init.Lit == nil {
+					symOk := globalObj.TypeTok == token.GAS_QUAD || (globalObj.TypeTok == token.GAS_LONG && p.cpu == abi.RISCV32)
+					if !symOk {
+						p.errorf(globalObj.Init.Pos, "%v: symbol %s is not a valid init value", globalObj.TypeTok, globalObj.Init.Symbal)
+					}
+				} else {
+					var ok bool
+					switch globalObj.TypeTok {
+					case token.GAS_FLOAT, token.GAS_DOUBLE:
+						_, ok = globalObj.Init.Lit.ConstV.(float64)
+					case token.GAS_ASCII, token.GAS_INCBIN:
+						_, ok = globalObj.Init.Lit.ConstV.(string)
+					default:
+						_, ok = globalObj.Init.Lit.ConstV.(int64)
+					}
+					if !ok {
+						p.errorf(globalObj.Init.Pos, "%v: invalid init value %s", globalObj.TypeTok, globalObj.Init.Lit.LitString)
+					}
+				}
+
 				// 验证初始化值的合法性, 填充类型和Size
 				switch globalObj.TypeTok {
 				case token.GAS_BYTE:
